@@ -10,6 +10,7 @@
                  game:j:k         the k-th game taken by worker j (over all requests) raises
                  killplay:j:k     worker j is SIGKILLed during its k-th game
                  killwait:j:r     worker j is SIGKILLed while idle, before request r (1-based) starts
+                 killinit:j       worker j is SIGKILLed while still inside its engine factory
     pool verdict <N> <fault kind> returned <n> <dups> <carried>
     pool verdict <N> <fault kind> raised <ms> 0 0
     pool verdict <N> <fault kind> blocked 0 0 0          → `ok` | `violation <key>`
@@ -35,6 +36,7 @@ inductive Fault where
   | game (j k : Nat)
   | killplay (j k : Nat)
   | killwait (j r : Nat)
+  | killinit (j : Nat)
   deriving DecidableEq, Repr
 
 /-- exploration state: model state + games taken so far by each worker -/
@@ -49,6 +51,7 @@ def parseFault (t : String) : Option Fault :=
   | ["game", j, k] => do pure (.game (← j.toNat?) (← k.toNat?))
   | ["killplay", j, k] => do pure (.killplay (← j.toNat?) (← k.toNat?))
   | ["killwait", j, r] => do pure (.killwait (← j.toNat?) (← r.toNat?))
+  | ["killinit", j] => do pure (.killinit (← j.toNat?))
   | _ => none
 
 /-- the successors of `x` that the fault script allows (poll excluded) -/
@@ -57,7 +60,11 @@ def succs (c : Cfg) (fs : List Fault) (x : X) : List X :=
   let workers := (List.range c.W).flatMap fun j =>
     let k := x.taken.getD j 0
     let mk (a : Act) : List X := ((step? c x.s a).map fun s' => { x with s := s' }).toList
-    let start := if fs.contains (.factory j) then mk (.factoryFail j) else mk (.start j)
+    let start :=
+      if fs.contains (.factory j) then mk (.factoryFail j)
+      else if fs.contains (.killinit j) then
+        (if x.s.ws[j]? = some .init then mk (.kill j) else [])
+      else mk (.start j)
     -- games are counted only for workers the script has a game-indexed fault for
     let counted := fs.any fun f => match f with
       | .game j' _ => j' == j | .killplay j' _ => j' == j | _ => false
